@@ -152,6 +152,15 @@ def work(ctx, tier):
         for e in common.pick_entries(rng, rig.ENTRIES, 3):
             _one(ctx, sc, e, stats)
         ctx.inc("scenarios_aborted_from_a_backoff_callback")
+    # ... and so is an abort raised by the attempt-start hook ("do not start another attempt"): the run ends with an abort, the stream
+    # with `aborted`
+    for k in range((200 if tier == "quick" else 4000) // ctx.nshards):
+        sc = gen.rand_scenario(rng, max_attempts=(2, 5), p_special=0.0, p_budget=0.2, p_handler=0.3, p_abort=0.0, p_breaker=0.0, ncalls=(1, 2))
+        sc["place"]["hooks"] = rng.choice(["call", "policy", "both"])
+        sc["fault"] = {"kind": "cb", "cb": "astart", "at": rng.choice([0, 1, 1, 2]), "exc": "AbortRetryError"}
+        for e in common.pick_entries(rng, rig.ENTRIES, 3):
+            _one(ctx, sc, e, stats)
+        ctx.inc("scenarios_aborted_from_the_attempt_start_hook")
     runs_started_inside_a_hook(ctx, common.rng_for(ctx, "nested"), (200 if tier == "quick" else 4000) // ctx.nshards)
     for i, sc in enumerate(gen.sweep_scenarios(max_len=3 if tier == "quick" else 4, stride=4 if tier == "quick" else 1)):
         if i % ctx.nshards != ctx.shard:
